@@ -163,8 +163,14 @@ func vfE4GenSpoof(r *vfRand, hist map[string]int, now int64, id, victim int) str
 		buf.WriteString("UNREGISTER t c")
 	}
 	hist["stream:spoof"]++
-	return fmt.Sprintf("%d spoof %d %d %s %s %s %s 4150 4151 %s", now, id, victim, extra,
+	line := fmt.Sprintf("%d spoof %d %d %s %s %s %s 4150 4151 %s", now, id, victim, extra,
 		vfE4H(vfE4Pick(r, []string{"hA", "hX"})), vfE4H("nX"), vfE4H("v9"), vfHex(buf.Bytes()))
+	if r.Intn(3) == 0 {
+		// the peer reads only k of the 1+n answers it is owed and goes away with one pending
+		line += fmt.Sprintf(" k=%d", r.Intn(n+1))
+		hist["stream:spoof-unread-answer"]++
+	}
+	return line
 }
 
 func vfE4GenStream(r *vfRand, noneg bool, hist map[string]int) ([]byte, []string) {
